@@ -365,5 +365,5 @@ func c11Gen(t *rapid.T) c11Case {
 func init() {
 	vfRapid("C11/order-independence",
 		"non-trivial = at least one conflicted key and at least two permutations evaluated; for orderings: the event set has at least one edge and at least two events without an ancestor in the set. distinct = distinct Case JSON. "+fmt.Sprint("Each case: k permutations of (state sets, events within sets, auth events with duplicated entries), 3 repeated runs, the deprecated entry point under permutation, all-equal sets, and 5 ordering functions"),
-		300, 10000, 16, c11Gen, c11Check)
+		1500, 60000, 16, c11Gen, c11Check)
 }
